@@ -374,7 +374,7 @@ def csv_typed_case(rng, tier):
     ncols = rng.randrange(2, 7)
     names = rng.sample(COLS, ncols)
     ntyped = ncols if rng.random() < 0.7 else rng.randrange(0, ncols)
-    types = "".join(rng.choice("nnsssiix" if rng.random() < 0.9 else "nsiq ") for _ in range(ntyped))
+    types = "".join(rng.choice("nnsssiixhh" if rng.random() < 0.9 else "nsiqh ") for _ in range(ntyped))
     if rng.random() < 0.05:
         types += "sn"           # more type characters than columns
     nrows = rng.choice([0, 1, 2, 3, 5, 8])
@@ -398,6 +398,23 @@ def csv_typed_case(rng, tier):
                                                b"-99999999999", b"12abc", b"", b"-", b"+", b" 5", b"1.9", b"007"]))
                 else:
                     c = "s:" + hexs(str(rng.randrange(-2 ** 33, 2 ** 33)).encode())
+            elif ty == "h":
+                # strtoul(.,16): hex texts of both cases, 0x prefix, sign, blanks, 32- and 64-bit overflow, junk tails
+                if r < 0.5:
+                    v = rng.choice([rng.randrange(0, 256), rng.randrange(0, 2 ** 31), rng.randrange(2 ** 31, 2 ** 32), rng.randrange(0, 2 ** 32)])
+                    x = ("%x" if rng.random() < 0.5 else "%X") % v
+                    if rng.random() < 0.3:
+                        x = rng.choice(["0x", "0X"]) + x
+                    c = "s:" + hexs(x.encode())
+                elif r < 0.6:
+                    c = "n:" + str(rng.randrange(0, 100000))
+                elif r < 0.85:
+                    c = "s:" + hexs(rng.choice([b"", b"0", b"0x", b"0xg", b"x1", b"-1", b"-0", b"+ff", b" 1f", b"  -0x10", b"ffffffff", b"100000000",
+                                               b"7fffffff", b"80000000", b"ffffffffffffffff", b"10000000000000000", b"-ffffffffffffffff",
+                                               b"-10000000000000000", b"123456789abcdef01", b"1fg", b"0x0x1", b"-", b"+", b"+-1", b"1 2", b"g", b"00ff", b"0xFFFFFFFF1"]))
+                else:
+                    x = ("%x" % rng.randrange(0, 2 ** rng.choice([8, 33, 64, 70]))).encode()
+                    c = "s:" + hexs(rng.choice([b"", b"-", b"+", b" ", b"0x", b"-0X"]) + x + rng.choice([b"", b"", b"z", b" ", b"x"]))
             elif ty == "?":
                 if r < 0.5:
                     c = "n:" + rnumber(rng).decode()
@@ -454,7 +471,7 @@ def csvtext_case(rng, tier):
         # the same arbitrary text read with readAs: 's', 'i' (myatoi on anything) and dropped columns only ('n' would run
         # myatof on arbitrary bytes, whose double arithmetic the model does not follow outside number texts);
         # fewer or more type characters than the rows have cells
-        types = "".join(rng.choice("ssiix_") for _ in range(rng.randrange(0, 6)))
+        types = "".join(rng.choice("ssiixh_") for _ in range(rng.randrange(0, 6)))
         ops.append("tabreadt %s %s" % (types or "-", hexs(t)))
     return ops
 
@@ -709,6 +726,13 @@ def reference(line):
                         if not (c.startswith("n:") and re.match(r"^-?\d+$", c[2:]) and abs(int(c[2:])) < 2 ** 31):
                             return None
                         cs.append("i%d" % int(c[2:]))
+                    elif ty == "h":
+                        # plain hex texts (optional 0x) below 2^32: Var(unsigned) is INT below 2^31, else a double
+                        x = unhex(c[2:]).decode("latin1") if c.startswith("s:") else c[2:]
+                        if not re.match(r"^(0[xX])?[0-9a-fA-F]{1,8}$", x):
+                            return None
+                        v = int(x, 16)
+                        cs.append("i%d" % v if v < 2 ** 31 else "n" + hexs(fmt15(float(v))))
                 out.append(",".join(cs))
             return "cols=%s rows=%s" % (",".join(names), ";".join(out))
         sep, dec = 44, 46
